@@ -3,7 +3,7 @@ import os
 import shutil
 import tempfile
 from . import common, models
-from .c08 import wellformed, unproxy, resave_case
+from .c08 import wellformed, unproxy, resave_case, empty_case
 
 
 def canon_json(roots):
@@ -296,6 +296,7 @@ def run(ctx):
             run_case(ctx, h, tmp, 10 if ctx.quick() else 25)
         layer_correspondence(ctx, tmp)
         doc_layer(ctx, tmp)
+        empty_case(ctx, tmp, 'json')
         for h in range(80 if ctx.quick() else 1500):
             resave_case(ctx, 'C09', h, tmp, 'json')
     finally:
